@@ -13,5 +13,4 @@ for d in seeded/${1:-*}/; do
     echo "$n: patch does not apply to HEAD: $(head -1 /tmp/sr_apply.err)"
   fi
   git -C /repo worktree remove --force $wt
-  rm -rf build/alt_*  2>/dev/null
 done
